@@ -4,6 +4,7 @@
 //! schedules, or from seeded random choice), calls the REAL emulator built from /repo with
 //! `--cfg koge29_verif`, and writes one ndjson event per linearisation point.  There is no oracle
 //! here: all expected values are computed by TLC from the specification (spec/TraceH8.tla).
+mod asm;
 mod bus;
 mod cases;
 mod cost;
@@ -13,6 +14,7 @@ mod gen;
 mod machine;
 mod mes;
 mod rng;
+mod stepped;
 mod sweep;
 
 use anyhow::{anyhow, Result};
@@ -67,6 +69,9 @@ fn main() {
         "mes-cases" => mes::run_mes(&args),
         "cost-table" => cost::run_cost(&args),
         "elf-load" => elfgen::run_elf_load(&args),
+        "irq-replay" => stepped::run_irq_replay(&args),
+        "acc-cases" => stepped::run_acc_cases(&args),
+        "callret" => stepped::run_callret(&args),
         "bus-scan" => bus::run_scan(&args),
         "bus-history" => bus::run_bus_history(&args),
         "port-replay" => bus::run_port_replay(&args),
